@@ -476,9 +476,9 @@ void h_ser_raw(void) {
   ser_init(&s, 0);
   fill_payload();
   uint64_t n = in_u64();
-  struct SerializedValue_char_p rv;
+  struct SerializedValue_constchar_p rv;
   rv.data_ = (char *)g_payload; rv.size_ = n;
-  size_t r = MsgPackSerializer_LogWriter__visit__SerializedValue_char_p(&s, rv);
+  size_t r = MsgPackSerializer_LogWriter__visit__SerializedValue_constchar_p(&s, rv);
   COVER(n == 0); COVER(n == 8); COVER(n > 0x100000000ull);
   CHECK(g_calls == 1 && g_last_ptr == g_payload && g_last_n == n && g_last_at == 0, "raw value: one write of exactly the stored bytes, nothing before");
 #ifdef CANARY_SER_RAW
